@@ -6,7 +6,7 @@
    the correspondence (the extracted model is the reference verifier). *)
 From Coq Require Import ZArith List.
 From GoIpa Require Import Model.Bytes Model.Alg Model.Transcript Model.Bary Model.Banderwagon Model.IPA Model.Multiproof
-  Proofs.AlgLaws Proofs.MultiproofProofs Proofs.IPAProofs Proofs.ReprProofs.
+  Proofs.AlgLaws Proofs.MultiproofProofs Proofs.IPAProofs Proofs.ReprProofs Proofs.Transfer.
 Import ListNotations.
 
 (* CheckMultiProof returns an error exactly when: the numbers of commitments, values and
@@ -85,3 +85,42 @@ Theorem C02_ipa_check_refines_textbook_verifier :
     ipa_check fo go hashf t cfg c pr z res = ipa_check_spec fo go hashf t cfg c pr z res.
 Proof. intros F G fo go hashf FL GL. exact (ipa_check_refines_spec fo go hashf FL GL). Qed.
 Print Assumptions C02_ipa_check_refines_textbook_verifier.
+
+(* the verifier run on REPRESENTATIONS (the code's coordinate-level group operations go1)
+   returns exactly what the verifier over any group go2 related to them returns on the related
+   inputs - result, error and final transcript; so what is proved of the verifier over a
+   lawful abstract group (C01, C04, the refinement above) holds of the run on representations *)
+Theorem C02_verifier_transfer :
+  forall (F G1 G2 : Type) (fo : FOps F) (go1 : GOps F G1) (go2 : GOps F G2) (hashf : list Z -> list Z)
+         (rel : G1 -> G2 -> Prop),
+  rel (g0 go1) (g0 go2) ->
+  (forall a a' b b', rel a a' -> rel b b' -> rel (gadd go1 a b) (gadd go2 a' b')) ->
+  (forall s p p', rel p p' -> rel (gmul go1 s p) (gmul go2 s p')) ->
+  (forall a a', rel a a' -> rel (gneg go1 a) (gneg go2 a')) ->
+  (forall a a', rel a a' -> genc go1 a = genc go2 a') ->
+  (forall a a' b b', rel a a' -> rel b b' -> geqb go1 a b = geqb go2 a' b') ->
+  forall t c1 c2 p1 p2 cs cs' ys zs,
+    cfg_rel rel c1 c2 -> mp_rel rel p1 p2 -> Forall2 rel cs cs' ->
+    mp_check fo go1 hashf t c1 p1 cs ys zs = mp_check fo go2 hashf t c2 p2 cs' ys zs.
+Proof.
+  intros F G1 G2 fo go1 go2 hashf rel H0 Ha Hm Hn He Hq.
+  exact (mp_check_rel fo go1 go2 hashf rel H0 Ha Hm Hn He Hq).
+Qed.
+Print Assumptions C02_verifier_transfer.
+
+Theorem C02_ipa_verifier_transfer :
+  forall (F G1 G2 : Type) (fo : FOps F) (go1 : GOps F G1) (go2 : GOps F G2) (hashf : list Z -> list Z)
+         (rel : G1 -> G2 -> Prop),
+  rel (g0 go1) (g0 go2) ->
+  (forall a a' b b', rel a a' -> rel b b' -> rel (gadd go1 a b) (gadd go2 a' b')) ->
+  (forall s p p', rel p p' -> rel (gmul go1 s p) (gmul go2 s p')) ->
+  (forall a a', rel a a' -> genc go1 a = genc go2 a') ->
+  (forall a a' b b', rel a a' -> rel b b' -> geqb go1 a b = geqb go2 a' b') ->
+  forall t c1 c2 cm cm' p1 p2 z res,
+    cfg_rel rel c1 c2 -> rel cm cm' -> ipa_rel rel p1 p2 ->
+    ipa_check fo go1 hashf t c1 cm p1 z res = ipa_check fo go2 hashf t c2 cm' p2 z res.
+Proof.
+  intros F G1 G2 fo go1 go2 hashf rel H0 Ha Hm He Hq.
+  exact (ipa_check_rel fo go1 go2 hashf rel H0 Ha Hm He Hq).
+Qed.
+Print Assumptions C02_ipa_verifier_transfer.
